@@ -569,6 +569,15 @@ def map_tokens(line, m):
         _IDENT = re.compile(r'[A-Za-z_][A-Za-z0-9_]*')
     return _IDENT.sub(lambda mo: m.get(mo.group(0), mo.group(0)), line)
 
+_MISSING = None
+def missing_typed(err):
+    """(method, state) pairs of rustc's E0599 `no method named m found for struct def::M<.., def::State>`"""
+    import re
+    global _MISSING
+    if _MISSING is None:
+        _MISSING = re.compile(r"no method named `(\w+)` found for struct `(?:\w+::)*\w+<(?:\w+, )?(?:\w+::)*(\w+)>`")
+    return set(_MISSING.findall(err))
+
 def gen_defs(tier, seed):
     cfg = TIERS[tier]
     rng = random.Random(seed * 7919 + 13)
@@ -696,7 +705,7 @@ def run(tier, seed, work, repo, suspects=None, strict_suspects=None):
             """one crate with a binary per group; returns {group index: built?}, stderr"""
             names = [f'u{tag}_{k}' for k in range(len(glist))]
             cdir = os.path.join(root, f'crate{ci}{tag}')
-            T.write_multi_crate(cdir, [(names[k], [(x['mod'], T.module_code(x['mod'], x['def'], x['text'], x['info'])) for x in g])
+            T.write_multi_crate(cdir, [(names[k], [(x['mod'], T.module_code(x['mod'], x['def'], x['text'], x['info'], x.get('skip_typed'))) for x in g])
                                        for k, g in enumerate(glist)], repo, feature)
             tdir = os.path.join(root, f'target{ci}')
             _, err = T.build_multi_crate(cdir, tdir)
@@ -707,11 +716,40 @@ def run(tier, seed, work, repo, suspects=None, strict_suspects=None):
                 if okk[k]:
                     shutil.copy(b, os.path.join(root, f'bin{ci}_{nm}'))
             return names, okk, err
-        def errs_of(err, nm):
+        def errs_of(err, nm, full=False):
             keep = [blk for blk in err.split('\n\n') if f'src/bin/{nm}.rs' in blk]
-            return ('\n\n'.join(keep) or err)[-3000:]
+            t = '\n\n'.join(keep) or err
+            return t if full else t[-3000:]
         glist = list(groups.values())
         names, okk, err = attempt(glist, 'a')
+        # an escalated suspect whose harness does not compile because a typed method the model's relation has is
+        # not there (E0599 on `Machine<.., State>`): that is C02's failing input; the harness is rebuilt without
+        # those calls so that the other oracles still get to drive the machine
+        for rnd in range(2):
+            again = []
+            for k, g in enumerate(glist):
+                if okk[k] or not all(x.get('suspect') and not x.get('strict') for x in g):
+                    continue
+                miss = missing_typed(errs_of(err, names[k], full=True))
+                new = False
+                for x in g:
+                    have = {(e['src'], ev['method']) for e in x['info'].get('edges', []) for ev in x['info']['events'] if ev['name'] == e['event']}
+                    mine = {(st, me) for (me, st) in miss if (st, me) in have}
+                    if mine - set(x.get('skip_typed') or ()):
+                        x['skip_typed'] = sorted(set(x.get('skip_typed') or ()) | mine)
+                        x['skip_typed'] = [tuple(t) for t in x['skip_typed']]
+                        new = True
+                if new:
+                    again.append(k)
+            if not again:
+                break
+            names_m, okk_m, err_m = attempt([glist[k] for k in again], 'm%d' % rnd)
+            for j, k in enumerate(again):
+                if okk_m[j]:
+                    okk[k] = True
+                    names[k] = names_m[j]
+                else:
+                    err = err + '\n\n' + errs_of(err_m, names_m[j], full=True).replace(f'src/bin/{names_m[j]}.rs', f'src/bin/{names[k]}.rs')
         units = []
         retry = []
         for k, g in enumerate(glist):
@@ -768,6 +806,13 @@ def run(tier, seed, work, repo, suspects=None, strict_suspects=None):
             continue
         scns = []
         by_id = {x['id']: x for x in uds}
+        for x in uds:
+            if x.get('skip_typed') and not x.get('twin_of'):
+                result['oracle_failures'].append({
+                    'property': 'C02', 'op_index': 0, 'sid': x['id'], 'family': 'suspect', 'dsl': x['text'], 'feature': x['feature'],
+                    'prefix': D.to_prefix(x['def']), 'ops': [], 'observed': 'rustc E0599',
+                    'what': 'typed method missing although the declared relation has the edge: ' +
+                            ', '.join(f'Machine<{st}>::{me}' for st, me in x['skip_typed'][:6])})
         for x in uds:
             info = x['info']
             if 'err' in info or x.get('twin_of'):
@@ -917,9 +962,22 @@ def replay_one(payload, work, repo):
     code = T.module_code(0, d, payload['dsl'], info)
     T.write_crate(os.path.join(root, 'crate'), [(0, code)], repo, feature)
     ok, err = T.build_crate(os.path.join(root, 'crate'), os.path.join(root, 'target'))
+    pre_fails = []
+    if not ok:
+        # a typed method of the declared relation that rustc does not find: C02's failing input; go on without it
+        have = {(e['src'], ev['method']) for e in info.get('edges', []) for ev in info['events'] if ev['name'] == e['event']}
+        skip = sorted({(st, me) for (me, st) in missing_typed(err) if (st, me) in have})
+        if skip:
+            pre_fails.append({'property': 'C02', 'op_index': 0, 'observed': 'rustc E0599',
+                              'what': 'typed method missing although the declared relation has the edge: ' +
+                                      ', '.join(f'Machine<{st}>::{me}' for st, me in skip[:6])})
+            code = T.module_code(0, d, payload['dsl'], info, skip)
+            T.write_crate(os.path.join(root, 'crate'), [(0, code)], repo, feature)
+            ok, err = T.build_crate(os.path.join(root, 'crate'), os.path.join(root, 'target'))
     if not ok:
         shutil.rmtree(root, ignore_errors=True)
-        return {'build_error': err[-3000:], 'impl': [], 'model': None, 'oracle_failures': [{'property': 'C14', 'what': 'does not compile'}]}
+        return {'build_error': err[-3000:], 'impl': [], 'model': None,
+                'oracle_failures': pre_fails + [{'property': 'C14', 'what': 'does not compile'}]}
     scn = [('r', 0, payload['ops'])]
     if payload.get('typed_ops'):
         scn.append(('rt', 0, payload['typed_ops']))
@@ -927,7 +985,7 @@ def replay_one(payload, work, repo):
     model = T.run_model_scenarios([('r', feature, d, payload['ops'])])
     shutil.rmtree(root, ignore_errors=True)
     rec = {'ops': payload['ops'], 'impl': impl.get('r', []), 'model': model.get('r', []), 'info': info}
-    fails = oracles(rec)
+    fails = pre_fails + oracles(rec)
     if payload.get('typed_ops'):
         bad = compare_pair(info, payload['ops'], impl.get('r', []), impl.get('rt', []))
         if bad:
